@@ -29,7 +29,10 @@ type check struct {
 	// soundness is proved: its answer on an honest proof must be the actual value
 	independent bool
 	sig         string // what this check is, stable (impl + corruption class)
-	replay      func() any
+	// norm canonicalises the model's answer before the comparison (legacy proof nodes carry plain
+	// felts: the child type tags of the model's node rendering are dropped)
+	norm   func(string) string
+	replay func() any
 }
 
 type batch struct {
@@ -71,6 +74,9 @@ type verifyReplay struct {
 // judge evaluates the answers for one check.
 func (c *ctx) judge(ch *check, model string) {
 	res := c.res
+	if ch.norm != nil {
+		model = ch.norm(model)
+	}
 	if ch.impl != "" {
 		res.Compared(1)
 		if !sameAnswer(model, ch.impl) {
@@ -172,12 +178,25 @@ func main() {
 		go c.runBatches(ch, &wg)
 	}
 	var sections sync.WaitGroup
-	sections.Add(2)
-	go func() { defer sections.Done(); c.trieSection(r.Fork(1), ch) }()
-	go func() { defer sections.Done(); c.rpcSection(r.Fork(2), ch) }()
+	sections.Add(3)
+	t0 := time.Now()
+	timing := map[string]float64{}
+	var tmu sync.Mutex
+	timed := func(name string, f func()) {
+		defer sections.Done()
+		f()
+		tmu.Lock()
+		timing[name] = time.Since(t0).Seconds()
+		tmu.Unlock()
+	}
+	go timed("trie_section_done_s", func() { c.trieSection(r.Fork(1), ch) })
+	go timed("rpc_section_done_s", func() { c.rpcSection(r.Fork(2), ch) })
+	go timed("range_section_done_s", func() { c.rangeSection(r.Fork(3)) })
 	sections.Wait()
 	close(ch)
 	wg.Wait()
+	timing["all_answers_judged_s"] = time.Since(t0).Seconds()
+	res.SetExtra("timing", timing)
 	lib.Finish(f, res)
 }
 
